@@ -133,7 +133,11 @@ def tsl_text(dims, offset=0, dyn0=False):
     return f"#tsl.tsl<{t}>"
 
 
+_TIER = ["quick"]
+
+
 def space(tier):
+    _TIER[0] = tier
     b = BOUNDS[tier]
     cases = []
     shapes = []
@@ -182,7 +186,8 @@ def mtype(shape, w, layout_text, dyn0=False):
     return f"memref<{dims}x{el}" + (f", {layout_text}" if layout_text else "") + ">"
 
 
-def resolve(case, tier="quick"):
+def resolve(case, tier=None):
+    tier = tier or _TIER[0]
     kind, sh, w, i, j, dyn0 = case
     if kind == "plain":
         menu = layouts_for(sh, "x", tier)
@@ -210,7 +215,8 @@ def make_view(name, base, shape, w, lay):
     return View((name, 0), w, 0, list(shape), [0] * len(shape), base)
 
 
-def evaluate(case, tier="quick") -> CaseResult:
+def evaluate(case, tier=None) -> CaseResult:
+    tier = tier or _TIER[0]
     r = CaseResult()
     kind, sh, w, i, j, dyn0 = case
     src, dst = resolve(case, tier)
